@@ -557,6 +557,14 @@ impl Run {
         let strict = self.strict;
         let guard = if self.guard { inflight() } else { None };
         let deadline_ms = self.deadline_ms;
+        let open_ids: HashSet<String> = self
+            .known
+            .entries
+            .iter()
+            .filter(|e| e.status == "open")
+            .map(|e| e.id.clone())
+            .collect();
+        let open_ids = &open_ids;
 
         std::thread::scope(|scope| {
             for shard in 0..shards {
@@ -607,6 +615,12 @@ impl Run {
                                 Err(format!(
                                     "strict mode: reproduces known finding {:?}",
                                     ctx.known_hits
+                                ))
+                            } else if let Some(k) =
+                                ctx.known_hits.iter().find(|k| !open_ids.contains(*k))
+                            {
+                                Err(format!(
+                                    "violation of the kind {k}, which is not listed as an open known finding"
                                 ))
                             } else {
                                 r
@@ -694,6 +708,14 @@ impl Run {
         let strict = self.strict;
         let guard = if self.guard { inflight() } else { None };
         let deadline_ms = self.deadline_ms;
+        let open_ids: HashSet<String> = self
+            .known
+            .entries
+            .iter()
+            .filter(|e| e.status == "open")
+            .map(|e| e.id.clone())
+            .collect();
+        let open_ids = &open_ids;
         let stack = self.stack;
         std::thread::scope(|scope| {
             for (shard, part) in items.chunks(chunk).enumerate() {
@@ -725,6 +747,12 @@ impl Run {
                                 Err(format!(
                                     "strict mode: reproduces known finding {:?}",
                                     ctx.known_hits
+                                ))
+                            } else if let Some(k) =
+                                ctx.known_hits.iter().find(|k| !open_ids.contains(*k))
+                            {
+                                Err(format!(
+                                    "violation of the kind {k}, which is not listed as an open known finding"
                                 ))
                             } else {
                                 r
@@ -789,6 +817,14 @@ impl Run {
             Err(format!(
                 "strict mode: reproduces known finding {:?}",
                 ctx.known_hits
+            ))
+        } else if let Some(k) = ctx
+            .known_hits
+            .iter()
+            .find(|k| self.known.get(k).is_none())
+        {
+            Err(format!(
+                "violation of the kind {k}, which is not listed as an open known finding"
             ))
         } else {
             r
